@@ -23,6 +23,20 @@ def sudoku_near_complete(k: int = 4, cells=((0, 0), (0, 1), (1, 0), (4, 4), (4, 
     return DatabaseGenerator(np.stack(boards))
 
 
+def sudoku_boards_int32(k: int = 2, cells=((0, 0), (0, 1), (4, 4), (8, 8))) -> Any:
+    """A caller-owned puzzle database (int32 NumPy array, 0 = empty, 1..9 = digits): the solved sample with
+    every k-subset of `cells` blanked.  A new array object on every call."""
+    from jumanji.environments.logic.sudoku.constants import SOLVED_BOARD_SAMPLE
+
+    boards = []
+    for sub in itertools.combinations(cells, k):
+        b = np.array(SOLVED_BOARD_SAMPLE).copy()
+        for r, c in sub:
+            b[r, c] = 0
+        boards.append(b)
+    return np.ascontiguousarray(np.stack(boards), dtype=np.int32)
+
+
 def sudoku_dead_ends(cases=((0, 0, 3), (4, 4, 5), (8, 8, 7), (2, 6, 1))) -> Any:
     """Boards on which a locally legal but wrong digit exists: on the solved sample, for a cell A=(r,c)
     and a digit y != solution[A], blank A and the cells holding y in A's row, column and box."""
